@@ -11,7 +11,7 @@
 What counts as "value-checked": a call made directly from harness code (no other public call of the library active)
 while a comparison scope is on the Python stack — a harness function that compares the result with NumPy (table
 VALUE_SCOPES below; `oracle.compare`, the per-check compare_* functions, C10's evaluate, C04's worker product call,
-C07's judge, C12's apply/do_read, C19's case_* functions, and everything in harness/extra_ops.py).  Calls made elsewhere
+C07's judge, C12's apply/do_read, C19's case_* functions, and extra_ops.judge).  Calls made elsewhere
 (generators that build operands, leg A representation comparisons, C06's canonical-form programs) are "called only".
 Calls made by the library itself (depth > 0) are counted per operation but never taken as coverage.
 """
@@ -37,8 +37,10 @@ VALUE_SCOPES = {
     "c07.judge", "c07.mixed_dtype_joins", "c07.fill_contribution", "c10.evaluate", "c04_worker.do_product",
     "c12.apply", "c12.same_dense", "c12.do_read", "c12.leg_cast", "c12.leg_raw_setitem",
     "c19.case_eye", "c19.case_eye_spelling", "c19.case_fill", "c19.case_like", "c19.case_asarray", "c19.case_random", "c19.case_random_defaults",
+    "extra_ops.judge", "extra_ops.judge_elemwise",  # (not extra_ops.to_sparse / build_operands: building an operand is not a comparison)
 }
-VALUE_MODULES = {"extra_ops"}  # every function of these harness modules compares values
+VALUE_MODULES = set()  # harness modules every function of which compares values
+OBSERVER_MODULES = {"extra_ops", "oracle", "impl"}  # a depth-0 call of an OBSERVERS operation straight from these modules is the comparison looking at a result
 FORM_SCOPES = {"c06.leg_c", "c06.step"}  # canonical form / nnz only: the VALUE is not compared
 # operations that the comparison itself uses to look at a result; a depth-0 call of these whose innermost harness frame is
 # the comparator is the observation, not the operation under test
@@ -271,7 +273,7 @@ def scope_kind(scope: str, op: str) -> str:
     inner = frames[0]
     val = any(f in VALUE_SCOPES or f.split(".")[0] in VALUE_MODULES for f in frames)
     if val:
-        if op in OBSERVERS and (inner in VALUE_SCOPES or inner.startswith("oracle.") or inner.split(".")[0] in VALUE_MODULES or inner.startswith("impl.")):
+        if op in OBSERVERS and (inner in VALUE_SCOPES or inner.split(".")[0] in OBSERVER_MODULES):
             # C05's subject IS conversion/densification: there the observer calls are the operation under test
             if inner.startswith("c05."):
                 return "value"
